@@ -59,7 +59,7 @@ pub fn gen_c18(seed: u64, tier: Tier) -> Scenario {
     let mut rng = Rng::new(seed);
     let threads = rng.usize_in(2, 16) as u8;
     let m = rng.usize_in(threads as usize, (threads as usize + 4).min(20));
-    let dom = Dom { edges: false, max_chunk: 512, max_channels: 3, max_sinc_len: 128, max_oversampling: 256, fft_cap: 200, ..Dom::default() };
+    let dom = Dom { edges: false, max_chunk: 512, max_channels: 3, max_sinc_len: 128, max_oversampling: 256, fft_cap: 200, wild: true, ..Dom::default() };
     let per = tier_budget(tier) * 2.0 / m as f64;
     let mut instances: Vec<InstanceSpec> = Vec::new();
     while instances.len() < m {
@@ -167,6 +167,7 @@ pub fn gen_c18(seed: u64, tier: Tier) -> Scenario {
         ops: vec![],
         twin: Twin::Threads { threads, instances, schedule, ctor_faults },
         sim_seconds: 0.0,
+        repeat: 0,
     }
 }
 
